@@ -136,6 +136,28 @@ Proof.
   eapply bal_trans; [apply (good_bal _ _ _ _ _ Hg Hn) | apply bal_emit; exact He].
 Qed.
 
+Lemma evalxs_bal : forall es x s, bal x (snd (evalxs es x)) s s.
+Proof.
+  induction es as [|e r IH]; intros x s; cbn [evalxs].
+  - apply bal_refl.
+  - unfold evalx. specialize (IH (emit (EvR e) x) s). destruct (evalxs r (emit (EvR e) x)) as [vs x2]. cbn [snd] in *.
+    eapply bal_trans; [apply (bal_emit (EvR e) x s s); reflexivity | exact IH].
+Qed.
+
+Lemma emit_vals_bal : forall vs x s, bal x (emit_vals vs x) s s.
+Proof.
+  induction vs as [|v r IH]; intros x s; unfold emit_vals; cbn [fold_left].
+  - apply bal_refl.
+  - eapply bal_trans; [apply (bal_emit (EvV v) x s s); reflexivity | apply IH].
+Qed.
+
+Lemma good_vals_after : forall x o x1 vs s sout, good x (o, x1) s sout -> noabort o ->
+  forall o', good x (o', emit_vals vs x1) s sout.
+Proof.
+  intros x o x1 vs s sout Hg Hn o'. exists sout. split; [|auto].
+  eapply bal_trans; [apply (good_bal _ _ _ _ _ Hg Hn) | apply emit_vals_bal].
+Qed.
+
 Definition defer_clause (s:stmt) : Prop :=
   match s with
   | Defer d body => forall N lp, wfd_block false false false N body = true ->
@@ -195,15 +217,17 @@ Proof.
     destruct lp as [c|]; [|apply good_here].
     destruct (cond c x) as [[v x1]|] eqn:Ec; [|apply good_here].
     eapply good_pre; [apply (bal_cond c x v x1 st Ec) | apply good_here].
-  - (* Return *) intro e. split; [|exact I]. intros. cbn [rstmt]. unfold evalx.
-    exists st. split; [apply bal_emit; reflexivity | auto].
+  - (* Return *) intro e. split; [|exact I]. intros L D F N lp x st H. cbn [rstmt].
+    pose proof (evalxs_bal e x st) as Hb. destruct (evalxs e x) as [vs x1]. cbn [snd] in Hb.
+    exists st. split; [exact Hb | auto].
   - (* ReturnVoid *) split; [|exact I]. intros. cbn [rstmt]. apply good_here.
   - (* FnCall *) intros void b IH. split; [|exact I]. intros L D F N lp x st H. cbn [rstmt wfd_stmt] in *.
     pose proof (IH false false true false None [] [] None x st H (Forall2_nil _)) as Hr. cbn [app] in Hr.
     destruct (rstmts None b [] None x) as [o x1]. unfold call_result.
     destruct o; try exact Hr;
-      (destruct void; [eapply good_retag; [exact Hr | intros _; na]
-                      | apply (good_emit_after _ _ _ _ _ _ Hr); try na; reflexivity]).
+      try (destruct void; [eapply good_retag; [exact Hr | intros _; na]
+                          | apply (good_emit_after _ _ _ _ _ _ Hr); try na; reflexivity]).
+    destruct void; [eapply good_retag; [exact Hr | intros _; na] | apply (good_vals_after _ _ _ _ _ _ Hr); na].
   - (* BNil *) intros L D F N lp ds ls fin x st _ Hds. cbn [rstmts].
     destruct fin as [c|].
     + destruct (cond c x) as [[v x1]|] eqn:Ec; [|apply good_abort_here].
@@ -273,9 +297,9 @@ Proof.
 Qed.
 
 (* the value a function returns is the one its return expression had before any clean-up ran *)
-Lemma return_value_fixed_before_cleanup : forall lp e rest ds fin x,
-  rstmts lp (BCons (Return e) rest) ds fin x = run_defers ds (Ret (length (tr x))) (emit (EvR e) x).
-Proof. reflexivity. Qed.
+Lemma return_value_fixed_before_cleanup : forall lp es rest ds fin x,
+  rstmts lp (BCons (Return es) rest) ds fin x = run_defers ds (Ret (fst (evalxs es x))) (snd (evalxs es x)).
+Proof. intros. cbn [rstmts rstmt]. destruct (evalxs es x) as [vs x1]. reflexivity. Qed.
 
 Example discipline_example :
   stack_run [EvG 1; EvG 2; EvE 5; EvU 2; EvU 1] [] = Some [] /\
